@@ -26,7 +26,8 @@ Failed(e) ==
                                           e.q[h][w] # <<e.real_part>> \o e.rgb[h][w] }
          \cup { c \in {"RgbRoundTrip"} : e.back # e.rgb }
     [] e.op = "metric" ->
-         { c \in {"PsnrInfIffEqual"}   : e.psnr_inf # (e.x = e.y) }
+         { c \in {"PsnrInfIffEqual"}   : e.psnr_inf # (e.x = e.y) \/ e.psnr_again_inf # (e.x = e.y) }
+         \cup { c \in {"ComparedArraysUntouched"} : ~e.same_after }   \* "iff the arrays are equal" is about the caller's arrays
          \cup { c \in {"RelErrZeroIffEqual"} : e.relerr_zero # (e.x = e.y) }
     [] e.op = "snr" ->
          { c \in {"SnrInExpectation"} : e.mean_mdb - e.target_mdb > SnrSlackMilliDb
